@@ -147,12 +147,14 @@ READ_VIA_ADDR = {'iv_list_del': [0], 'iv_list_del_init': [0], 'iv_list_empty': [
 
 
 def _obj_field(x, record):
-    """If x is an access path v->f... (or (*v).f) where v is a variable whose
-    pointee record is `record`, returns (v name, f, canon of v->f)."""
+    """If x is an access path v->a.b.c... where v is a variable whose pointee
+    record is `record`, returns (v name, 'a.b.c' path inside the object, top field)."""
     x = strip(x)
     chain = []
     while isinstance(x, dict) and x.get('k') in ('member', 'index'):
         if x.get('k') == 'index':
+            if 'bound' not in x:
+                chain = []          # element of a pointed-to array: a different object
             x = strip_load(x['base'])
             continue
         chain.append(x)
@@ -165,26 +167,34 @@ def _obj_field(x, record):
     if not top['arrow'] or top.get('record') != record:
         return None
     b = strip(top['base'])
+    path = '.'.join(c['field'] for c in reversed(chain))
     if isinstance(b, dict) and b.get('k') == 'var':
-        return (b['name'], top['field'], '%s->%s' % (b['name'], top['field']))
-    if isinstance(b, dict) and b.get('k') == 'addr':
-        return None
-    return ('<expr>', top['field'], '%s->%s' % (canon(b), top['field']))
+        return (b['name'], path, top['field'])
+    return ('<%s>' % canon(b), path, top['field'])
+
+
+def _covers(written, v, path):
+    """Is a read of v->path covered by the written set {(v, path)}: the path
+    itself, a prefix of it, or (whole-object read) some sub-path of it."""
+    parts = path.split('.')
+    for i in range(1, len(parts) + 1):
+        if (v, '.'.join(parts[:i])) in written:
+            return True
+    pre = path + '.'
+    return any(w[0] == v and w[1].startswith(pre) for w in written)
 
 
 def field_accesses(e, record):
-    """[(kind 'r'|'w', var, field)] accesses of fields of `record` objects made
-    by one event."""
+    """[(kind 'r'|'w'|'addr', var, path)] accesses of fields of `record`
+    objects made by one event."""
     out = []
     ev = e['ev']
     if ev == 'store':
         of = _obj_field(e['lhs'], record)
         if of:
-            # whole-field or sub-field store; op= also reads
-            full = last_member(e['lhs']) == (record, of[1])
             if e['op'] != '=':
                 out.append(('r', of[0], of[1]))
-            out.append(('w' if full else 'wpart', of[0], of[1]))
+            out.append(('w', of[0], of[1]))
     elif ev == 'load':
         of = _obj_field(e['e'], record)
         if of:
@@ -197,16 +207,13 @@ def field_accesses(e, record):
                 of = _obj_field(a['e'], record)
                 if not of:
                     continue
-                full = last_member(a['e']) == (record, of[1])
                 if nm in WRITE_VIA_ADDR and i in WRITE_VIA_ADDR[nm]:
-                    out.append(('w' if full else 'wpart', of[0], of[1]))
+                    out.append(('w', of[0], of[1]))
                 elif nm in READ_VIA_ADDR and i in READ_VIA_ADDR[nm]:
                     out.append(('r', of[0], of[1]))
                 elif nm is not None and nm.startswith('IV_') and nm.endswith('_INIT'):
                     out.append(('w', of[0], of[1]))
                 else:
-                    # unknown callee given the field's address: neither a proof
-                    # of initialisation nor a read we can see
                     out.append(('addr', of[0], of[1]))
     return out
 
@@ -217,7 +224,7 @@ def must_written(fn, record, success_only=True):
     def tr(e, S):
         for (k, v, f) in field_accesses(e, record):
             if k == 'w':
-                S = S | {f}
+                S = S | {('*', f)}
         return S
     _, ev_in = forward(fn, frozenset(), tr, lambda a, b: a & b)
     # classify returns
@@ -268,6 +275,162 @@ def read_before_write(fn, record):
             if S is None:
                 continue
             for (k, v, f) in field_accesses(e, record):
-                if k == 'r' and (v, f) not in S:
+                if k == 'r' and not _covers(S, v, f):
                     out.setdefault(f, []).append(e)
     return out
+
+
+# Library object kinds: record, user-initialised fields (documented as set by
+# the caller before registration), register functions, mandatory INIT function.
+OBJECT_KINDS = [
+    dict(rec='iv_fd_', user=['fd', 'cookie', 'handler_in', 'handler_out', 'handler_err'],
+         reg=['iv_fd_register', 'iv_fd_register_try'], init='IV_FD_INIT', per_method=True),
+    dict(rec='iv_task_', user=['cookie', 'handler'], reg=['iv_task_register'], init='IV_TASK_INIT'),
+    dict(rec='iv_timer_', user=['expires', 'cookie', 'handler'], reg=['iv_timer_register'], init='IV_TIMER_INIT',
+         guarded={'list_expired': 'read only on the index == 0 arm of unregister / in the runner, i.e. after the runner '
+                                  'linked it on the path that stored index = 0'}),
+    dict(rec='iv_event', user=['cookie', 'handler'], reg=['iv_event_register'], init='IV_EVENT_INIT'),
+    dict(rec='iv_event_raw', user=['cookie', 'handler'], reg=['iv_event_raw_register'], init='IV_EVENT_RAW_INIT'),
+    dict(rec='iv_signal', user=['signum', 'flags', 'cookie', 'handler'], reg=['iv_signal_register'], init='IV_SIGNAL_INIT'),
+    dict(rec='iv_wait_interest', user=['pid', 'cookie', 'handler'],
+         reg=['iv_wait_interest_register', 'iv_wait_interest_register_spawn'], init='IV_WAIT_INTEREST_INIT'),
+    dict(rec='iv_inotify', user=[], reg=['iv_inotify_register'], init='IV_INOTIFY_INIT', optional=True),
+    dict(rec='iv_inotify_watch', user=['inotify', 'pathname', 'mask', 'cookie', 'handler'],
+         reg=['iv_inotify_watch_register'], init='IV_INOTIFY_WATCH_INIT', optional=True),
+    dict(rec='iv_work_pool', user=['max_threads', 'cookie', 'thread_start', 'thread_stop'],
+         reg=['iv_work_pool_create'], init='IV_WORK_POOL_INIT'),
+    dict(rec='iv_work_item', user=['cookie', 'work', 'completion'],
+         reg=['iv_work_pool_submit_work', 'iv_work_pool_submit_continuation'], init='IV_WORK_ITEM_INIT'),
+    dict(rec='iv_popen_request', user=['file', 'argv', 'type'], reg=['iv_popen_request_submit'], init='IV_POPEN_REQUEST_INIT'),
+    dict(rec='iv_fd_pump', user=['from_fd', 'to_fd', 'cookie', 'set_bands', 'flags'], reg=['iv_fd_pump_init'], init='IV_FD_PUMP_INIT'),
+    dict(rec='iv_tls_user', user=['sizeof_state', 'init_thread', 'deinit_thread'], reg=['iv_tls_user_register'], init=None),
+]
+KIND_RECORDS = {k['rec'] for k in OBJECT_KINDS} | {'iv_fd', 'iv_task', 'iv_timer'}
+
+
+def _method_private(prog):
+    """{function q: set of tables whose slots (transitively, by direct calls) reach it};
+    functions absent from the map are common code."""
+    tables = prog.method_tables()
+    reach = {}
+    for t, slots in tables.items():
+        work = []
+        for slot, v in slots.items():
+            if v and v[0] != 'str':
+                f = prog.resolve(v[0], v[1])
+                if f is not None:
+                    work.append(f)
+        seen = set()
+        while work:
+            f = work.pop()
+            if f.q in seen:
+                continue
+            seen.add(f.q)
+            if not (f.file.endswith('iv_fd_epoll.c') or f.file.endswith('iv_fd_poll.c')
+                    or f.file.endswith('iv_fd_kqueue.c') or f.file.endswith('iv_fd_port.c')
+                    or f.file.endswith('iv_fd_dev_poll.c')):
+                continue
+            reach.setdefault(f.q, set()).add(t)
+            unit = prog.unit_of(f)
+            for e in f.events():
+                if e['ev'] == 'call' and 'callee' in e:
+                    g = prog.resolve(unit, e['callee']) if unit else None
+                    if g is not None:
+                        work.append(g)
+    return reach
+
+
+def init_complete(ctx, rid, kinds=None, files=None):
+    """INIT-COMPLETE: every private field of an object kind that some library
+    function may read before writing it is must-written on every success path
+    of the kind's register function(s) or of its INIT function."""
+    prog = ctx.prog
+    mpriv = _method_private(prog)
+    tables = sorted(prog.method_tables())
+    n = 0
+    for K in OBJECT_KINDS:
+        if kinds is not None and K['rec'] not in kinds:
+            continue
+        rec = K['rec']
+        if rec not in prog.records or 'fields' not in prog.records[rec]:
+            if K.get('optional'):
+                continue
+            raise AnalysisBroken('record %s not found' % rec)
+        regs = [r for r in K['reg'] if prog.has_fn(r)]
+        if not regs:
+            if K.get('optional'):
+                continue
+            raise AnalysisBroken('register function of %s not found' % rec)
+        fields = {f['name']: f for f in prog.records[rec]['fields']}
+        private = [f for f in fields if f not in K['user'] and fields[f].get('record') not in KIND_RECORDS]
+        variants = tables if K.get('per_method') else [None]
+        for table in variants:
+            inl = Inliner(prog, method_table=table, expand_methods=table is not None)
+            mw_init = frozenset()
+            if K['init'] and prog.has_fn(K['init']):
+                mw_init, _ = must_written(inl.inline(prog.fn(K['init'])), rec, success_only=False)
+            mw_reg = None
+            rbw_reg = {}
+            for r in regs:
+                g = inl.inline(prog.fn(r))
+                w, nret = must_written(g, rec)
+                if nret == 0:
+                    raise AnalysisBroken('%s has no success return' % r)
+                mw_reg = w if mw_reg is None else (mw_reg & w)
+                for fld, evs in read_before_write(g, rec).items():
+                    rbw_reg.setdefault(fld, []).extend((r, e) for e in evs)
+            # reads anywhere else
+            rbw = {}
+            skip = set(regs) | ({K['init']} if K['init'] else set())
+            for f in prog.all_funcs():
+                if f.name in skip:
+                    continue
+                if table is not None and f.q in mpriv and table not in mpriv[f.q]:
+                    continue
+                # helpers that are only ever entered from the register functions are
+                # covered by the inlined register analysis
+                for fld, evs in read_before_write(f, rec).items():
+                    rbw.setdefault(fld, []).extend((f.q, e) for e in evs)
+            allpaths = sorted(set(rbw) | set(rbw_reg))
+            for fld in allpaths:
+                topf = fld.split('.')[0]
+                if topf not in private:
+                    continue
+                readers = rbw.get(fld, [])
+                rreaders = rbw_reg.get(fld, [])
+                ok = True
+                why = ''
+                if rreaders and not _covers(mw_init, '*', fld):
+                    # read inside register itself before register wrote it
+                    ok = False
+                    why = 'read by %s before any write; %s does not initialise it' % (rreaders[0][0], K['init'] or 'no INIT function')
+                if readers and not _covers(mw_init | mw_reg, '*', fld):
+                    # helper functions reached only from register after the write are not readers
+                    real = [(q, e) for (q, e) in readers if not _only_called_after_write(prog, q, regs, rec, fld)]
+                    if real:
+                        ok = False
+                        why = 'read by %s (%s) but not written on every success path of %s nor by %s' % (
+                            real[0][0], relpath(real[0][1]['loc']), '/'.join(regs), K['init'] or 'an INIT function')
+                        readers = real
+                inst = '%s.%s%s' % (rec, fld, (' [%s]' % table.replace('iv_fd_poll_method_', '')) if table else '')
+                if not ok and topf in K.get('guarded', {}):
+                    ctx.exempt(rid, inst, K['guarded'][topf])
+                    ok = True
+                    why = 'guarded: ' + K['guarded'][topf]
+                loc = (readers or rreaders)[0][1]['loc']
+                ctx.ob(rid, inst, ok, loc=loc,
+                       detail=why or 'written by %s before any library read' % ('INIT' if _covers(mw_init, '*', fld) else 'registration'),
+                       fn=(readers or rreaders)[0][0])
+                n += 1
+    return n
+
+
+def _only_called_after_write(prog, q, regs, rec, fld):
+    """True when function q is a static helper whose callers are all register
+    functions of the kind (its reads are then seen by the inlined analysis)."""
+    f = prog.funcs.get(q)
+    if f is None or not f.static:
+        return False
+    cs = prog.callers_of(f.name)
+    cs = [c for c, e in cs if prog.resolve(prog.unit_of(c), f.name) is f] if cs else []
+    return bool(cs) and all(c.name in regs for c in cs)
